@@ -109,7 +109,7 @@ func runLzCase(r *Result, dp *DriverPool, prop string, cs lzCase, plain bool) {
 			fmt.Sprintf("library reader returned %d bytes (want %d), status %s %s %s", len(g.Out), len(data), g.Err, g.Msg, g.Panic))
 	}
 	// the reader must honour the dictionary size of the header whatever (smaller) capacity the caller configures
-	if goOK && prop == "C06" && c.DictCap > 4096 {
+	if goOK {
 		g2 := goLzmaRead(w.Out, 4096, 60*time.Second)
 		if !(g2.Err == "EOF" && !g2.OpenErr && bytes.Equal(g2.Out, data)) {
 			viol("counterexample", fmt.Sprintf("roundtrip with ReaderConfig.DictCap=4096 matcher=%d dict=%d: reader %s %s", c.Matcher, c.DictCap, g2.Err, g2.Msg),
@@ -271,13 +271,19 @@ func checkLzmaWriter(prop string) func(a *checkArgs, r *Result) error {
 				}
 			}
 			c.DictCap = []int{4096, 4097, 65536, 1 << 20}[rng.Intn(4)]
-			c.BufSize = []int{273, 274, 4096}[rng.Intn(3)]
+			c.BufSize = []int{273, 274, 4096, 65536}[rng.Intn(4)] // also a look-ahead larger than the dictionary
 			c.Matcher = rng.Intn(2)
 			max := 40000
 			if c.Matcher == 1 {
 				max = 10000
 			}
 			name, data := pickData(rng, max)
+			if c.BufSize > c.DictCap && i%2 == 0 {
+				// a repetition at a distance between the dictionary capacity and the look-ahead size
+				x := genRandom(rng, c.DictCap+1+rng.Intn(5000))
+				data = append(append([]byte{}, x...), x...)
+				name = fmt.Sprintf("double-beyond-dict/%d", len(data))
+			}
 			switch rng.Intn(3) {
 			case 0:
 				c.EOSMarker = true
